@@ -82,8 +82,8 @@ def _c20():
         hs.append(H(n, tier="quick", profiles=("dev", "rel"), note="CowBytes op, argument in range, both variants"))
     for n in ["c20_cow_split_to_oor", "c20_cow_split_off_oor", "c20_cow_truncate_oor", "c20_cow_advance_oor"]:
         hs.append(H(n, tier="quick", profiles=("rel", "dev"), allow_panics=True, note="CowBytes op, argument past the end"))
-    for n in ["c20_variants_l0_l0", "c20_variants_l2_l2", "c20_variants_l3_l2", "c20_variants_l1_l3"]:
-        hs.append(H(n, tier="quick" if n.endswith(("l0_l0", "l3_l2")) else "thorough", profiles=("dev", "rel"),
+    for n in ["c20_variants_l0_l0", "c20_variants_l2_l2", "c20_variants_l3_l2", "c20_variants_l1_l3", "c20_shared_storage_l3", "c20_shared_storage_l1"]:
+        hs.append(H(n, tier="quick" if n.endswith(("l0_l0", "l3_l2", "storage_l3")) else "thorough", profiles=("dev", "rel"),
                     note="Temporary vs Static indistinguishable through accessors, eq, ord, hash"))
     return dict(
         kind="ext", module="c20", shims=["bytes", "tokio"],
